@@ -3,7 +3,7 @@ import vlib, common
 RULE = ("sender: (1) 60/400 snapshots (digests of length 0..40, nil digests, versions up to 2^64-1) printed by fmt.Sprintf(%v) and by the Coq printer; (2) every single-bit change of every digest, of the version and of the signature, "
         "a byte moved across a field boundary and a truncated signature, against the real ed25519 verifier; (3) one batcher driven by scripted bursts and pauses - the published batches compared with the Coq batcher; "
         "(4) 2..4 concurrent batchers with random arrival timing around the flush interval - every snapshot exactly once, batches of 1..BatchSize, signatures verify for exactly the issued snapshot; "
-        "(5) end to end: snapshots issued by AddBulk on a real RaftNode through a channel of capacity 1/4/64 into a running sender. distinct = printed snapshot / modification batch / script / emitted snapshot")
+        "(5) end to end: snapshots issued by AddBulk on a real RaftNode through a channel of capacity 1/4/64 into a running sender. distinct = printed snapshot / modification batch / script / emitted snapshot server: a stand-alone real server - every snapshot it issues is published by its sender on the gossip bus once. A burst of 5000 snapshots against a bus consumer slower than the sender.")
 CMDS = ['sender', 'server']
 CASES = {'sender': ('run_print_cases / run_batch_cases', 'C17_message_determines_snapshot + C17_exactly_once_in_bounded_batches (Sender/Sign.v print_snapshot, Sender/Batcher.v brun vs server/sender.go)')}
 
